@@ -201,7 +201,12 @@ def sortAf (m : List (Nat × ErrClass)) : List (Nat × ErrClass) := m.foldr inse
 
 structure St where
   sites : List (List (Source Val)) := []
-  ex : Exec Val := { procs := [(0, {})], queue := [0], selecting := [] }
+  /-- which implementation is mirrored: `(variant on)` = notes/C05-fixes/01 (the select waits for its answer) -/
+  variant : Variant := {}
+  w : ExecW Val := { ex := { procs := [(0, {})], queue := [0], selecting := [] } }
+
+def St.ex (s : St) : Exec Val := s.w.ex
+def St.setEx (s : St) (ex : Exec Val) : St := { s with w := { s.w with ex := ex } }
 
 def renderState (s : St) : String :=
   match s.ex.getProc 0 with
@@ -220,7 +225,9 @@ def renderState (s : St) : String :=
     let queued := if 0 ∈ s.ex.queue then "1" else "0"
     let af := "(" ++ " ".intercalate ((sortAf p.awaitingFailed).map (fun (k, e) => s!"({k} {e.name})")) ++ ")"
     let res := match p.result with | none => "none" | some (.ok _) => "ok" | some (.err e) => e.name
-    s!"mb={mb} aw={aw} af={af} sel={sel} parked={parked} queued={queued} res={res}"
+    let un := if s.variant.selectWaitsForAnswer then
+        " un=(" ++ " ".intercalate ((s.w.un 0).map toString) ++ ")" else ""
+    s!"mb={mb} aw={aw} af={af} sel={sel} parked={parked} queued={queued} res={res}{un}"
 
 def renderSpec : SpecOutcome Val → String
   | .yields y taken => s!"yields {renderYield y} taken " ++ (match taken with | none => "none" | some i => toString i)
@@ -231,33 +238,42 @@ def c05Step (s : St) (req : List Sx) : St × String :=
   match req with
   | [.list (.atom "scenario" :: sites)] =>
     match sitesOfSx sites with
-    | some ss => ({ sites := ss }, "ok")
+    | some ss => ({ sites := ss, variant := s.variant }, "ok")
     | none => (s, "bad-request")
+  | [.list [.atom "variant", .atom "on"]] => ({ s with variant := { selectWaitsForAnswer := true } }, "ok")
+  | [.list [.atom "variant", .atom "off"]] => ({ s with variant := {} }, "ok")
   | [.list [.atom "msg", v]] =>
     match Val.ofSx v with
-    | some m => let s' := { s with ex := s.ex.notifyMessage 0 m }; (s', renderState s')
+    | some m => let s' := { s with w := s.w.notifyMessage 0 m }; (s', renderState s')
+    | none => (s, "bad-request")
+  | [.list [.atom "pending", p]] =>
+    -- a `None` entry of an UpdateAwaitResults (`notify_pending`; only the patched code calls it)
+    match p.asNat with
+    | some pid =>
+      let s' := if s.variant.selectWaitsForAnswer then { s with w := s.w.notifyPending 0 pid } else s
+      (s', renderState s')
     | none => (s, "bad-request")
   | [.list [.atom "result", p, .list [.atom "ok", v]]] =>
     match p.asNat, Val.ofSx v with
-    | some pid, some x => let s' := { s with ex := s.ex.notifyResultOk 0 pid x }; (s', renderState s')
+    | some pid, some x => let s' := { s with w := s.w.notifyResultOk 0 pid x }; (s', renderState s')
     | _, _ => (s, "bad-request")
   | [.list [.atom "result", p, .list [.atom "err", .atom c]]] =>
     match p.asNat, errOfName c with
-    | some pid, some e => let s' := { s with ex := s.ex.notifyFailure 0 pid e }; (s', renderState s')
+    | some pid, some e => let s' := { s with w := s.w.notifyFailure 0 pid e }; (s', renderState s')
     | _, _ => (s, "bad-request")
   | [.list [.atom "finished", p, .list [.atom "ok", v]]] =>
     match p.asNat, Val.ofSx v with
-    | some pid, some x => let s' := { s with ex := s.ex.notifyFinished 0 pid (.ok x) }; (s', renderState s')
+    | some pid, some x => let s' := { s with w := s.w.notifyFinished 0 pid (.ok x) }; (s', renderState s')
     | _, _ => (s, "bad-request")
   | [.list [.atom "finished", p, .list [.atom "err", .atom c]]] =>
     match p.asNat, errOfName c with
-    | some pid, some e => let s' := { s with ex := s.ex.notifyFinished 0 pid (.err e) }; (s', renderState s')
+    | some pid, some e => let s' := { s with w := s.w.notifyFinished 0 pid (.err e) }; (s', renderState s')
     | _, _ => (s, "bad-request")
   | [.list [.atom "pfinished"]] =>
     match s.ex.getProc 0 with
-    | some p => let s' := { s with ex := s.ex.setProc 0 { p with result := some (.ok (.t "Ok")) } }; (s', renderState s')
+    | some p => let s' := s.setEx (s.ex.setProc 0 { p with result := some (.ok (.t "Ok")) }); (s', renderState s')
     | none => (s, "no-process")
-  | [.list [.atom "wake"]] => let s' := { s with ex := s.ex.wake 0 }; (s', renderState s')
+  | [.list [.atom "wake"]] => let s' := s.setEx (s.ex.wake 0); (s', renderState s')
   | [.list [.atom "select", site, now]] =>
     match site.asNat, now.asNat with
     | some k, some t =>
@@ -268,12 +284,13 @@ def c05Step (s : St) (req : List Sx) : St × String :=
         | some (.fail _) => (s, "filter-does-not-return")
         | _ =>
           -- `step` pops the process from the queue before running it
-          let ex0 := { s.ex with queue := s.ex.queue.filter (· != 0) }
-          match ex0.selectPure 0 t srcs with
-          | (ex1, some r) =>
+          let w0 : ExecW Val := { s.w with ex := { s.ex with queue := s.ex.queue.filter (· != 0) } }
+          match w0.selectPure s.variant 0 t srcs with
+          | (w1, some r) =>
             -- a process that did not park is re-queued at the end of the slice (or keeps running)
+            let ex1 := w1.ex
             let ex2 := if 0 ∈ ex1.selecting then ex1 else { ex1 with queue := ex1.queue ++ [0] }
-            let s' := { s with ex := ex2 }
+            let s' := { s with w := { w1 with ex := ex2 } }
             (s', renderRes r ++ " " ++ renderState s')
           | (_, none) => (s, "no-process")
       | _, _ => (s, "bad-request")
@@ -284,13 +301,13 @@ def c05Step (s : St) (req : List Sx) : St × String :=
       match p.sel.bind pendingFilterRes with
       | some (.fail _) =>
         match s.ex.selectPure 0 0 [] with
-        | (ex1, some r) => let s' := { s with ex := ex1 }; (s', renderRes r ++ " " ++ renderState s')
+        | (ex1, some r) => let s' := s.setEx ex1; (s', renderRes r ++ " " ++ renderState s')
         | (_, none) => (s, "no-process")
       | _ => (s, "no-fail")
     | none => (s, "no-process")
   | [.list [.atom "expire", now]] =>
     match now.asNat with
-    | some t => let s' := { s with ex := s.ex.checkExpiredTimeouts t }; (s', renderState s')
+    | some t => let s' := s.setEx (s.ex.checkExpiredTimeouts t); (s', renderState s')
     | none => (s, "bad-request")
   | [.list [.atom "next-timeout"]] =>
     (s, match s.ex.nextTimeoutMs with | none => "none" | some t => toString t)
@@ -299,6 +316,13 @@ def c05Step (s : St) (req : List Sx) : St × String :=
     match siteOfSx site, valsOfSx mb, resultsOfSx rs, start.asNat, now.asNat with
     | some srcs, some mb, some rs, some st, some t => (s, renderSpec (selectSpec mb (fun k => amLookup k rs) st t srcs))
     | _, _, _, _, _ => (s, "bad-request")
+  | [.list [.atom "spec-sys", site, .list (.atom "mailbox" :: mb), .list (.atom "results" :: rs),
+        .list (.atom "certain" :: cs), start, now]] =>
+    -- system-level readiness: known results first, else what had certainly finished before the select started
+    match siteOfSx site, valsOfSx mb, resultsOfSx rs, resultsOfSx cs, start.asNat, now.asNat with
+    | some srcs, some mb, some rs, some cs, some st, some t =>
+      (s, renderSpec (selectSpecSys mb (fun k => amLookup k rs) (fun k => amLookup k cs) st t srcs))
+    | _, _, _, _, _, _ => (s, "bad-request")
   | _ => (s, "bad-request")
 
 def main : IO Unit := sxLoop c05Step {}
